@@ -276,20 +276,31 @@ func c04r5(r *R) {
 	c := r.C
 	gc := hijackMethod(r, "GetClientHello")
 	o := r.Ob("C04.R5", "nothing-partial:"+funcName(gc)).At(gc.Pos())
-	eachInstr(gc, func(i ssa.Instruction) {
-		ret, ok := i.(*ssa.Return)
-		if !ok {
-			return
+	// every way of returning: the buffer's bytes only when the parse succeeded, a nil error only then too
+	// (return alternatives: one store of a chosen value and one return per case read alike)
+	n0 := 0
+	for _, ra := range c.returnAlts(gc, 0) {
+		o.AtI(ra.Ret)
+		n0++
+		switch ra.E {
+		case "nil":
+		case nBufBytes:
+			o.Check(relHolds(ra.Lits, nTryParse, "==", "nil"), "GetClientHello returns %s under %v; want buf.Bytes() only when tryParseClientHello succeeded", ra.E, ra.Lits)
+		default:
+			o.Fail("GetClientHello returns %s, want the captured bytes or nil", ra.E)
 		}
-		o.AtI(i)
-		gs := c.guardStrs(i.Block())
-		e0, e1 := c.Expr(ret.Results[0]), c.Expr(ret.Results[1])
-		if e0 == "nil" {
-			o.Check(e1 == nTryParse && hasGuard(gs, "+("+nTryParse+" != nil)"), "GetClientHello returns (nil, %s) under %v", e1, gs)
-		} else {
-			o.Check(e0 == nBufBytes && e1 == "nil" && hasGuard(gs, "-("+nTryParse+" != nil)"), "GetClientHello returns (%s, %s) under %v; want buf.Bytes() only when tryParseClientHello succeeded", e0, e1, gs)
+	}
+	o.Check(n0 > 0, "GetClientHello has no return")
+	for _, ra := range c.returnAlts(gc, 1) {
+		o.AtI(ra.Ret)
+		switch ra.E {
+		case nTryParse:
+		case "nil":
+			o.Check(relHolds(ra.Lits, nTryParse, "==", "nil"), "GetClientHello returns a nil error under %v although tryParseClientHello failed", ra.Lits)
+		default:
+			o.Fail("GetClientHello returns the error %s, want tryParseClientHello's", ra.E)
 		}
-	})
+	}
 	// serveConn: the record is used only on the err == nil edge; the error edge returns
 	_, _, sc := serveLoop(r)
 	o2 := r.Ob("C04.R5", "capture-error-drops-connection:"+funcName(sc)).At(sc.Pos())
@@ -303,10 +314,24 @@ func c04r5(r *R) {
 			if *op == nil {
 				continue
 			}
+			if _, isPhi := i.(*ssa.Phi); isPhi {
+				continue // a join only forwards the value; its uses are looked at where they are
+			}
 			if ex, ok := (*op).(*ssa.Extract); ok && c.Expr(ex) == rec {
 				uses++
 				gs := c.guardStrs(i.Block())
 				o2.AtI(i).Check(hasGuard(gs, "-"+errG), "the captured record is used although GetClientHello failed; guards %v", gs)
+			} else if phi, ok := (*op).(*ssa.Phi); ok {
+				// the record handed on through a join (`rec, ok := helper()` expanded in place): each case in which the
+				// joined value is the record must lie on the err == nil side
+				for _, vc := range c.valueCases(phi, i.Block()) {
+					if vc.E != rec {
+						continue
+					}
+					uses++
+					gs := append(append([]string{}, vc.Guards...), c.guardStrs(i.Block())...)
+					o2.AtI(i).Check(hasGuard(gs, "-"+errG), "the captured record is used although GetClientHello failed; conditions %v", gs)
+				}
 			}
 		}
 	})
